@@ -58,6 +58,45 @@ func rsOps() []rsOp {
 		{"fund-ref-r", create(func() ledger.RunScript { rs := fund(); rs.Reference = "r"; return rs }, command.Parameters{})},
 		{"spend-ref-r", create(func() ledger.RunScript { rs := spend(); rs.Reference = "r"; return rs }, command.Parameters{})},
 		{"preview-spend", create(spend, command.Parameters{DryRun: true})},
+		// metadata on targets that do not exist, keys that are not there, awkward addresses and keys
+		{"meta-tx-9", func(e *engineh.Engine) string {
+			return errResp(e.Cmd.SaveMeta(e.Ctx(), command.Parameters{}, ledger.MetaTargetTypeTransaction, big.NewInt(9), metadata.Metadata{"m": "1"}))
+		}},
+		{"delete-meta-cfg-missing-key", func(e *engineh.Engine) string {
+			return errResp(e.Cmd.DeleteMetadata(e.Ctx(), command.Parameters{}, ledger.MetaTargetTypeAccount, "cfg", "never-set"))
+		}},
+		{"delete-meta-nobody", func(e *engineh.Engine) string {
+			return errResp(e.Cmd.DeleteMetadata(e.Ctx(), command.Parameters{}, ledger.MetaTargetTypeAccount, "nobody", "k"))
+		}},
+		{"meta-odd-account", func(e *engineh.Engine) string {
+			return errResp(e.Cmd.SaveMeta(e.Ctx(), command.Parameters{}, ledger.MetaTargetTypeAccount, "users:\"bob\":<x>", metadata.Metadata{"k.with.dots": "v", "k\"q": "{}", "": "empty key"}))
+		}},
+		{"delete-meta-odd-key", func(e *engineh.Engine) string {
+			return errResp(e.Cmd.DeleteMetadata(e.Ctx(), command.Parameters{}, ledger.MetaTargetTypeAccount, "users:\"bob\":<x>", "k.with.dots"))
+		}},
+		{"script-meta-on-bank", create(func() ledger.RunScript {
+			return script("send [USD 1] (\n source = @world\n destination = @carol\n)\nset_account_meta(@bank, \"vip\", \"yes\")\nset_account_meta(@carol, \"n\", 42)\nset_tx_meta(\"t\", [USD 3])\n", nil, "")
+		}, command.Parameters{})},
+		{"script-reads-bank-meta", create(func() ledger.RunScript {
+			return script("vars {\n string $v = meta(@bank, \"vip\")\n}\nsend [USD 1] (\n source = @world\n destination = @carol\n)\nset_tx_meta(\"seen\", $v)\n", nil, "")
+		}, command.Parameters{})},
+		// scripts whose outcome depends on what they read from the store: balances (send-all, ordered sources, a bounded
+		// overdraft) and metadata of every declared type
+		{"script-send-all-bank", create(func() ledger.RunScript {
+			return script("send [USD *] (\n source = @bank\n destination = @x\n)\n", nil, "")
+		}, command.Parameters{})},
+		{"script-two-sources", create(func() ledger.RunScript {
+			return script("send [USD 12] (\n source = {\n  @bank\n  @alice\n }\n destination = @y\n)\n", nil, "")
+		}, command.Parameters{})},
+		{"script-overdraft", create(func() ledger.RunScript {
+			return script("send [USD 15] (\n source = @bank allowing overdraft up to [USD 5]\n destination = @z\n)\n", nil, "")
+		}, command.Parameters{})},
+		{"meta-cfg-typed", func(e *engineh.Engine) string {
+			return errResp(e.Cmd.SaveMeta(e.Ctx(), command.Parameters{}, ledger.MetaTargetTypeAccount, "cfg", metadata.Metadata{"n": "3", "m": "USD 2", "p": "1/2", "dst": "erin", "s": "text with \"quotes\""}))
+		}},
+		{"script-meta-typed", create(func() ledger.RunScript {
+			return script("vars {\n number $n = meta(@cfg, \"n\")\n monetary $m = meta(@cfg, \"m\")\n portion $p = meta(@cfg, \"p\")\n account $d = meta(@cfg, \"dst\")\n string $s = meta(@cfg, \"s\")\n}\nsend $m (\n source = @world\n destination = {\n  $p to $d\n  remaining to @rest\n }\n)\nset_tx_meta(\"n\", $n)\nset_tx_meta(\"s\", $s)\n", nil, "")
+		}, command.Parameters{})},
 		// the earliest timestamp the parser lets through
 		{"fund-year0", create(func() ledger.RunScript {
 			rs := fund()
@@ -195,23 +234,46 @@ func realStoreConformance(rep *evid.Reporter, keyPrefix string) (histories, step
 	if rep.Thorough() {
 		maxLen = 4
 	}
-	var hists [][]int
-	var rec func(cur []int)
-	rec = func(cur []int) {
-		if len(cur) > 0 {
-			hists = append(hists, append([]int{}, cur...))
+	// two alphabets sharing the basic operations (the product of everything with everything grows with the cube):
+	// A - kinds of write, keys, references, dates, the neighbour ledger; B - what scripts read, metadata of every kind
+	inB := map[string]bool{"fund": true, "spend": true, "fund-eur": true, "spend-eur": true, "script-balance-meta": true, "meta-cfg": true, "meta-cfg-null": true,
+		"delete-meta-cfg": true, "delete-meta-cfg-missing-key": true, "delete-meta-nobody": true, "meta-odd-account": true, "delete-meta-odd-key": true,
+		"script-meta-on-bank": true, "script-reads-bank-meta": true, "script-send-all-bank": true, "script-two-sources": true, "script-overdraft": true,
+		"meta-cfg-typed": true, "script-meta-typed": true, "revert-0": true, "L2:meta-cfg": true, "spend-backdated": true}
+	onlyB := map[string]bool{"script-meta-on-bank": true, "script-reads-bank-meta": true, "script-send-all-bank": true, "script-two-sources": true, "script-overdraft": true,
+		"meta-cfg-typed": true, "script-meta-typed": true, "delete-meta-cfg-missing-key": true, "delete-meta-nobody": true, "meta-odd-account": true, "delete-meta-odd-key": true}
+	var groupA, groupB []int
+	for i, o := range ops {
+		if inB[o.Name] {
+			groupB = append(groupB, i)
 		}
-		if len(cur) == maxLen {
-			return
-		}
-		for i := -1; i < len(ops); i++ {
-			if i == -1 && (len(cur) == 0 || cur[len(cur)-1] == -1) {
-				continue // (a restart first, or two in a row, adds nothing)
-			}
-			rec(append(cur, i))
+		if !onlyB[o.Name] {
+			groupA = append(groupA, i)
 		}
 	}
-	rec(nil)
+	var hists [][]int
+	seenHist := map[string]bool{}
+	for _, group := range [][]int{groupA, groupB} {
+		var rec func(cur []int)
+		rec = func(cur []int) {
+			if len(cur) > 0 {
+				if k := fmt.Sprint(cur); !seenHist[k] {
+					seenHist[k] = true
+					hists = append(hists, append([]int{}, cur...))
+				}
+			}
+			if len(cur) == maxLen {
+				return
+			}
+			for _, i := range append([]int{-1}, group...) {
+				if i == -1 && (len(cur) == 0 || cur[len(cur)-1] == -1) {
+					continue // (a restart first, or two in a row, adds nothing)
+				}
+				rec(append(cur, i))
+			}
+		}
+		rec(nil)
+	}
 	// every history runs from the empty ledger and from a ledger that already holds two transactions (fund, spend)
 	preamble := []int{0, 1}
 	nh := len(hists)
